@@ -66,7 +66,8 @@ Definition e_ctor (v : val) : val :=     (* Reply(code, text): [0; code; raw_mes
 (* operations on a fresh Reply(): [[tag; arg]; ...], tag 0 code / 1 message / 2 ESC str ([] = None) / 3 ESC False /
    4 copy(other), arg = the flat operation list that builds `other` / 5 send.
    -> [code; message shown; [esc]; wire; raised flags; 1 if _esc is False;
-       [[code; message; [esc]; wire; 1 if _esc is False] for every send]] *)
+       [[code; message; [esc]; wire; 1 if _esc is False; 1 if the send raises UnicodeEncodeError] for every send];
+       the send buffer of the one IO all sends go to] *)
 Definition rop_flat (v : val) : rop :=
   match v with
   | VL [VN 0; VB c] => ROCode c
@@ -96,8 +97,10 @@ Definition e_ops (v : val) : val :=
       let rops := map rop_of ops in
       let '(r, fl) := ops_trace fresh_reply rops in
       VL [VB (r_code r); VB (get_message r); v_esc r; VB (wire_of r); VL fl; v_escfalse r;
-          VL (map (fun s => VL [VB (r_code s); VB (get_message s); v_esc s; VB (wire_of s); v_escfalse s])
-                  (rops_sent udigit uspace fresh_reply rops))]
+          VL (map (fun s => VL [VB (r_code s); VB (get_message s); v_esc s; VB (wire_of s); v_escfalse s;
+                                VN (match send_chk s with Some _ => 0 | None => 1 end)])
+                  (rops_sent udigit uspace fresh_reply rops));
+          VB (rops_out udigit uspace fresh_reply rops)]
   | _ => verr
   end.
 
